@@ -968,9 +968,17 @@ class Table:
         # Read through OUR backend rather than pyarrow's S3 filesystem (#54).
         with data_file_manager.open_parquet_source(data_file.file_path) as src:
             if compute_expr is not None:
-                # pyarrow applies `filters` against all needed columns during the
-                # scan and returns only `columns`, so pushdown is correct here.
-                return pq.read_table(src, columns=columns, filters=compute_expr)
+                # Filter in memory, exactly as the verified branch above and the
+                # batch readers do (read, filter, THEN project). Handing the
+                # expression to pq.read_table(filters=...) lets pyarrow discard
+                # row groups by parquet min/max statistics, which ignore NaN:
+                # `!=`, `not_in` and `in [NaN]` then lose NaN rows that every
+                # other scan API returns.
+                table = pq.read_table(src)
+                table = table.filter(compute_expr)
+                if columns is not None:
+                    table = table.select(columns)
+                return table
             return pq.read_table(src, columns=columns)
 
     def _scan_table(
